@@ -374,6 +374,9 @@ func (e *specEnv) binary(n *EBinary, hint types.Type) sv {
 	}
 	if isCmp && (n.Op == "==" || n.Op == "!=") {
 		eq := "(= " + at + " " + bt + ")"
+		if isString(ty) {
+			eq = u.strEq(at, bt)
+		}
 		if n.Op == "!=" {
 			eq = "(not " + eq + ")"
 		}
